@@ -4,7 +4,9 @@ package main
 
 import (
 	"bytes"
+	"crypto/cipher"
 	"fmt"
+	"sort"
 	"strconv"
 	"strings"
 
@@ -18,6 +20,7 @@ var edgeLens = []int{0, 1, 2, 3, 31, 32, 63, 64, 65, 66, 127, 128, 129, 191, 192
 
 func genHist(g *hx.Gen, forceTwoStep bool, a, b int) {
 	r := g.R
+	feat := map[string]bool{} // features of this history, for the pair.<a>+<b> counters
 	key := r.Bytes(32)
 	if r.Chance(1, 20) {
 		key = make([]byte, 32)
@@ -26,12 +29,27 @@ func genHist(g *hx.Gen, forceTwoStep bool, a, b int) {
 	if r.Chance(3, 10) {
 		nonce = r.Bytes(24)
 		g.Stat("nonce24")
+		feat["nonce24"] = true
 	} else {
 		nonce = r.Bytes(12)
 		g.Stat("nonce12")
+		feat["nonce12"] = true
 	}
-	if r.Chance(1, 40) { // malformed constructor arguments
+	// cont: the history goes on after recovered panics, and may contain calls that panic before touching
+	// the state (inexact overlap, short dst); zero: the zero-value Cipher{} instead of the constructor
+	cont := !forceTwoStep && r.Chance(1, 5)
+	zero := r.Chance(1, 15)
+	if cont {
+		feat["cont"] = true
+	}
+	if zero {
+		feat["zero-value"] = true
+		delete(feat, "nonce12")
+		delete(feat, "nonce24")
+	}
+	if !zero && r.Chance(1, 40) { // malformed constructor arguments
 		g.Stat("bad-new")
+		feat["bad-new"] = true
 		if r.Bool() {
 			key = r.Bytes(r.PickInt(0, 16, 31, 33, 64))
 		} else {
@@ -40,45 +58,135 @@ func genHist(g *hx.Gen, forceTwoStep bool, a, b int) {
 	}
 	var ops []string
 	var src []byte
-	pos := uint64(0) // predicted stream position (steers the choices only)
-	dead := false    // predicted: a panic has happened
+	pos := uint64(0)  // predicted stream position (steers the choices only)
+	dead := false     // predicted: a panic has happened and the history ends there
+	hadPanic := false // predicted: a panic has happened (a cont=1 history goes on)
 	setc := func(c uint64) {
 		ops = append(ops, "s:"+strconv.FormatUint(c, 10))
 		cur := (pos + 63) / 64
+		feat["setcounter"] = true
+		if cont && hadPanic {
+			feat["op-after-panic"] = true
+		}
+		if !dead {
+			switch {
+			case pos > limit-64:
+				arm("chacha20.SetCounter-arm", "panic-after-last-block")
+			case c < cur:
+				arm("chacha20.SetCounter-arm", "panic-rollback")
+			case pos%64 != 0:
+				arm("chacha20.SetCounter-arm", "forward-discards-buffer")
+			default:
+				arm("chacha20.SetCounter-arm", "same-block-no-buffer")
+			}
+		}
 		if pos > limit-64 || c < cur {
 			if !dead {
 				g.Stat("expect-rollback-panic")
 			}
-			dead = true
+			feat["rollback-panic"] = true
+			hadPanic = true
+			dead = !cont // SetCounter panics before changing anything: a continued history goes on from the same state
 			return
 		}
 		pos = c * 64
 	}
 	xor := func(n int) {
-		if r.Chance(1, 4) {
+		if cont && hadPanic {
+			feat["op-after-panic"] = true
+		}
+		src = append(src, r.Bytes(n)...)
+		if cont && r.Chance(1, 8) {
+			// calls that panic before touching the cipher: dst overlapping src by one byte / dst one byte short
+			if r.Bool() {
+				ops = append(ops, "o:"+strconv.Itoa(n))
+				feat["overlap-call"] = true
+				if n >= 2 {
+					hadPanic = true
+					return
+				}
+			} else {
+				ops = append(ops, "t:"+strconv.Itoa(n))
+				feat["short-dst-call"] = true
+				hadPanic = hadPanic || n > 0
+				return
+			}
+		} else if r.Chance(1, 4) {
 			ops = append(ops, "i:"+strconv.Itoa(n)) // in place: dst = src
 			g.Stat("xor-in-place")
+			feat["in-place"] = true
 		} else {
 			ops = append(ops, "x:"+strconv.Itoa(n))
 		}
-		src = append(src, r.Bytes(n)...)
+		if !dead && pos <= limit {
+			const T = "chacha20.XORKeyStream-branch"
+			buffered := (64 - pos%64) % 64
+			switch {
+			case n == 0:
+				arm(T, "empty")
+			case uint64(n) <= buffered:
+				arm(T, "drain-only")
+			default:
+				if buffered > 0 {
+					arm(T, "drain+more")
+				}
+				rest := uint64(n) - buffered
+				start := pos + buffered
+				if start+rest > limit {
+					arm(T, "overflow-panic")
+				} else {
+					if start+((rest+63)/64)*64 == limit {
+						arm(T, "sets-overflow")
+					}
+					if rest >= 64 {
+						arm(T, "whole-blocks")
+					}
+					if rest%64 != 0 {
+						arm(T, "padded-tail")
+						if (start+rest/64*64)/64 == 1<<32-1 {
+							arm(T, "tail-at-2^32-1(one-block-refill)")
+						}
+					} else {
+						arm(T, "ends-on-boundary")
+					}
+				}
+			}
+		}
 		if n == 0 {
 			g.Stat("xor-empty")
+			feat["xor-empty"] = true
 			return
+		}
+		if n >= 256 {
+			feat["len>=256"] = true
+		}
+		if n%64 == 0 {
+			feat["len=64k"] = true
 		}
 		if pos+uint64(n) > limit {
 			if !dead {
 				g.Stat("expect-overflow-panic")
 			}
-			dead = true
+			feat["overflow-panic"] = true
+			hadPanic = true
+			if cont {
+				// the buffered keystream was drained before the panic: the position is at the block boundary
+				if pos <= limit {
+					pos += (64 - pos%64) % 64
+				}
+			} else {
+				dead = true
+			}
 			return
 		}
 		if pos%64 != 0 && !dead {
 			g.Stat("xor-inside-block")
+			feat["inside-block"] = true
 		}
 		pos += uint64(n)
 		if pos == limit && !dead {
 			g.Stat("reached-exact-end")
+			feat["exact-end"] = true
 		}
 	}
 	// starting counter
@@ -94,6 +202,7 @@ func genHist(g *hx.Gen, forceTwoStep bool, a, b int) {
 		setc(uint64(r.Intn(1000)))
 	case cls < 9:
 		g.Stat("start-near-2^32")
+		feat["start-near-2^32"] = true
 		setc(1<<32 - 1 - uint64(r.PickInt(0, 0, 1, 1, 2, 3, 4, 5, 8, 9, 70, 80)))
 	default:
 		setc(uint64(r.U32()))
@@ -173,14 +282,72 @@ func genHist(g *hx.Gen, forceTwoStep bool, a, b int) {
 	// m = blocksPerBuf of the *model* (the real code here always has bufSize = 64): 1 in 5 histories are run
 	// through the model of the bufSize = 256 ports, which must give the same observable
 	m := 1
-	if r.Chance(1, 5) {
+	if !cont && r.Chance(1, 5) {
 		m = 4
 		g.Stat("model-bufsize-256")
+		feat["model-m4"] = true
 	}
-	g.Emit("hist m=%d key=%s nonce=%s ops=%s src=%s", m, hx.Hex(key), hx.Hex(nonce), hx.JoinStrs(ops), hx.Hex(src))
+	if forceTwoStep {
+		g.Stat("two-step-at-2^32-2") // a fixed shape of its own, not part of the pair sweep
+	} else {
+		statPairs(g, feat)
+	}
+	if !zero {
+		switch {
+		case len(key) != 32:
+			arm("chacha20.New-nonce-len", "bad-key")
+		case len(nonce) == 12:
+			arm("chacha20.New-nonce-len", "12")
+		case len(nonce) == 24:
+			arm("chacha20.New-nonce-len", "24")
+		default:
+			arm("chacha20.New-nonce-len", "other")
+		}
+	}
+	flags := ""
+	if cont {
+		flags += " cont=1"
+		g.Stat("continue-after-panic")
+	}
+	if zero {
+		flags += " zero=1"
+		g.Stat("zero-value-cipher")
+	}
+	g.Emit("hist m=%d%s key=%s nonce=%s ops=%s src=%s", m, flags, hx.Hex(key), hx.Hex(nonce), hx.JoinStrs(ops), hx.Hex(src))
+}
+
+// arms of the length / position dependent branches of the code under test that the generated cases reach
+// (predicted from the stream position); reported as table.<name>=hit/total
+var arms = map[string]map[string]bool{
+	"chacha20.New-nonce-len":       {"12": false, "24": false, "other": false, "bad-key": false},
+	"chacha20.XORKeyStream-branch": {"empty": false, "drain-only": false, "drain+more": false, "overflow-panic": false, "sets-overflow": false, "whole-blocks": false, "padded-tail": false, "tail-at-2^32-1(one-block-refill)": false, "ends-on-boundary": false},
+	"chacha20.SetCounter-arm":      {"panic-after-last-block": false, "panic-rollback": false, "forward-discards-buffer": false, "same-block-no-buffer": false},
+}
+
+func arm(table, a string) {
+	if _, ok := arms[table][a]; !ok {
+		panic("unknown arm " + table + "/" + a)
+	}
+	arms[table][a] = true
+}
+
+// statPairs counts every unordered pair of features that occur together in one case
+func statPairs(g *hx.Gen, feat map[string]bool) {
+	var fs []string
+	for f := range feat {
+		fs = append(fs, f)
+		g.Stat("feat." + f)
+	}
+	sort.Strings(fs)
+	for i := range fs {
+		for j := i + 1; j < len(fs); j++ {
+			g.Stat("pair." + fs[i] + "+" + fs[j])
+		}
+	}
 }
 
 func gen(g *hx.Gen) {
+	g.Emit("consts")
 	n := g.Count(2000, 20000)
 	for i := 0; i < n; i++ {
 		genHist(g, false, 0, 0)
@@ -196,6 +363,15 @@ func gen(g *hx.Gen) {
 		for k := 0; k < 300; k++ {
 			genHist(g, true, g.R.Range(0, 130), g.R.Range(0, 130))
 		}
+	}
+	for t, m := range arms {
+		hit := 0
+		for _, h := range m {
+			if h {
+				hit++
+			}
+		}
+		g.StatN(fmt.Sprintf("table.%s=%d/%d", t, hit, len(m)), 1)
 	}
 	for i := 0; i < n/10; i++ {
 		kl, nl := 32, 16
@@ -257,6 +433,8 @@ func exec(line string) string {
 			mut.add("out-aliases-input")
 		}
 		return res + " mut=" + mut.String()
+	case "consts":
+		return fmt.Sprintf("%d %d %d", chacha20.KeySize, chacha20.NonceSize, chacha20.NonceSizeX)
 	case "hist":
 		// key and nonce: guarded inputs; after construction they are overwritten — the cipher must not
 		// keep a reference to the caller's key / nonce memory
@@ -264,9 +442,14 @@ func exec(line string) string {
 		key, nonce := kn.In("key", o.Hex("key")), kn.In("nonce", o.Hex("nonce"))
 		c, err := chacha20.NewUnauthenticatedCipher(key, nonce)
 		mut.add(kn.Check())
+		if o.Str("zero") == "1" {
+			c, err = new(chacha20.Cipher), nil // the zero value: all-zero key and nonce, counter 0
+		}
 		if err != nil {
 			return "err mut=" + mut.String()
 		}
+		cont := o.Str("cont") == "1"
+		var stream cipher.Stream = c // calls go through the cipher.Stream interface
 		for i := range key {
 			key[i] = byte(0xee ^ i)
 		}
@@ -311,6 +494,19 @@ func exec(line string) string {
 				src := srcBuf[:n]
 				copy(src, in)
 				var dst []byte
+				if kind == "o" || kind == "t" {
+					// calls that must panic (or be no-ops) without touching the cipher state
+					if kind == "o" {
+						whole := srcBuf[:n+1]
+						copy(whole, in)
+						src, dst = whole[:n], whole[1:n+1]
+					} else {
+						dst = dstBuf[:max(n-1, 0)]
+					}
+					stream.XORKeyStream(dst, src)
+					res = hx.Hex(dst[:min(n, len(dst))])
+					return
+				}
 				if kind == "i" {
 					dst = src
 				} else {
@@ -319,7 +515,7 @@ func exec(line string) string {
 					dst = dstBuf[:n+(step%2)*9]
 				}
 				before := append([]byte(nil), dstBuf...)
-				c.XORKeyStream(dst, src)
+				stream.XORKeyStream(dst, src)
 				res = hx.Hex(dst[:n])
 				mut.add(io.Check())
 				if kind != "i" {
@@ -335,6 +531,9 @@ func exec(line string) string {
 			})
 			if panicked {
 				outs = append(outs, "panic")
+				if cont {
+					continue
+				}
 				break
 			}
 			outs = append(outs, res)
